@@ -72,7 +72,7 @@ Inductive pev :=
 | PUndelete (b : Z)
 | PFinish (b : Z)
 | PReport (s : Z) (ids : list tid)
-| PDeliver (k : nat) (fault : bool)
+| PDeliver (k : nat) (fault : bool) (recv : Z)   (* recv: the tractserver the request reaches; it carries the id it was computed for *)
 | PLeader
 | PRSCommit (base : Z) (hosts : list Z)
 | PRSBegin (base : Z) (n : Z)
@@ -106,6 +106,16 @@ Definition removals (st : pstate) (k : nat) (fault : bool) : list rkey :=
   | Some i => map (fun t => (pi_ts i, t))
                   (gc_removals (fun t => p_rep st (pi_ts i, t)) (map (fun o => (o, fault)) (pi_old i)) (pi_gone i))
   end.
+
+(* TSCtlHandler.GCTract refuses a request stamped with another tractserver's id: nothing is removed *)
+Definition removals_at (st : pstate) (k : nat) (fault : bool) (recv : Z) : list rkey :=
+  match nth_error (p_soup st) k with
+  | Some i => if recv =? pi_ts i then removals st k fault else []
+  | None => []
+  end.
+
+Lemma removals_at_sub : forall st k f r x, In x (removals_at st k f r) -> In x (removals st k f).
+Proof. intros st k f r x H. unfold removals_at in H. destruct (nth_error (p_soup st) k) as [i|]; [|contradiction]. destruct (r =? pi_ts i); [exact H|contradiction]. Qed.
 
 Definition pieces (base n : Z) : list tid := map (fun i => (-2, base + Z.of_nat i)) (seq 0 (Z.to_nat n)).
 
@@ -188,8 +198,8 @@ Definition pstep (st : pstate) (ev : pev) : pstate :=
            p_soup := p_soup st ++ [{| pi_ts := s; pi_old := old; pi_gone := gone; pi_chunks := p_chunks st |}];
            p_tasks := p_tasks st; p_pend := p_pend st |}
       else st
-  | PDeliver k fault =>
-      set_rep st (fold_left (fun m key => rupd m key None) (removals st k fault) (p_rep st))
+  | PDeliver k fault recv =>
+      set_rep st (fold_left (fun m key => rupd m key None) (removals_at st k fault recv) (p_rep st))
   | PLeader => set_pend st []
   | PRSCommit base hosts => set_chunks st ((base, hosts) :: p_chunks st)
   | PRSBegin base n => set_pend st (pieces base n ++ p_pend st)
@@ -294,13 +304,13 @@ Proof.
   - reflexivity.
 Qed.
 
-Lemma deliver_rep : forall st k f key,
-  p_rep (pstep st (PDeliver k f)) key = if existsb (rk_eqb key) (removals st k f) then None else p_rep st key.
+Lemma deliver_rep : forall st k f r key,
+  p_rep (pstep st (PDeliver k f r)) key = if existsb (rk_eqb key) (removals_at st k f r) then None else p_rep st key.
 Proof. intros. cbn. apply fold_rupd_none. Qed.
 
-Lemma deliver_rep_some : forall st k f key rv,
-  p_rep (pstep st (PDeliver k f)) key = Some rv -> p_rep st key = Some rv.
-Proof. intros st k f key rv H. rewrite deliver_rep in H. destruct (existsb _ _); [discriminate|auto]. Qed.
+Lemma deliver_rep_some : forall st k f r key rv,
+  p_rep (pstep st (PDeliver k f r)) key = Some rv -> p_rep st key = Some rv.
+Proof. intros st k f r key rv H. rewrite deliver_rep in H. destruct (existsb _ _); [discriminate|auto]. Qed.
 
 Lemma existsb_rk_In : forall key l, existsb (rk_eqb key) l = true <-> In key l.
 Proof.
@@ -553,15 +563,15 @@ Proof.
     apply andb_true_iff in G. destruct G as [_ G]. apply Z.ltb_lt in G. exact G.
 Qed.
 
-Lemma inv_deliver : forall st k f, Inv st -> Inv (pstep st (PDeliver k f)).
+Lemma inv_deliver : forall st k f r, Inv st -> Inv (pstep st (PDeliver k f r)).
 Proof.
-  intros st k f I. pose proof I as [P E D A B V W T]. constructor; auto.
+  intros st k f r I. pose proof I as [P E D A B V W T]. constructor; auto.
   - intros s t rv Hr R. apply deliver_rep_some in Hr. eauto.
   - intros s t dv hs rv Htr Hin Hr. apply deliver_rep_some in Hr. cbn in Htr. eauto.
   - intros x Hx. cbn in Hx. destruct (T x Hx) as (dv & hs & Htr & Hle & HT). exists dv, hs. split; [exact Htr|]. split; auto.
     intros Hd s Hs. destruct (HT Hd s Hs) as (rv & Hr & Hge). exists rv. split; auto.
-    rewrite deliver_rep. destruct (existsb (rk_eqb (s, pt_t x)) (removals st k f)) eqn:Q; auto.
-    apply existsb_rk_In in Q. exfalso. eapply deliver_keeps_ahead; eauto. lia.
+    rewrite deliver_rep. destruct (existsb (rk_eqb (s, pt_t x)) (removals_at st k f r)) eqn:Q; auto.
+    apply existsb_rk_In in Q. apply removals_at_sub in Q. exfalso. eapply deliver_keeps_ahead; eauto. lia.
 Qed.
 
 Theorem inv_step : forall st ev, Inv st -> Inv (pstep st ev).
